@@ -12,7 +12,7 @@ import (
 
 func init() {
 	register("C10", runC10, propMeta{
-		Explanation: "Decides the structural conditions behind 'total, all-or-nothing, identical across entry points': (K1, sibling cross-check) each of the three functions that create a lexer (BuildRuleFromString, BuildRuleWithIncremental, getKc) feeds the whole text to one input stream, attaches a fresh GengineErrorListener to the lexer and another to the parser, walks psr.Primary() with a GengineParserListener over a fresh KnowledgeContext, and every return with a nil error is dominated by the three tests len(lexerErrors)>0, len(parserErrors)>0, len(listener.ParseErrors)>0, each of whose true edges returns a new error; the five public entry points reach exactly these pipelines (call graph); (K2) no store to installed state can be followed by an error return in any entry point or helper; (K3) the listener stores a rule under its name only on the miss edge of a lookup of the same name in the same map, the hit edge records an error; (K4) holder completeness: every Enter handler that pushes pushes one *base.T, the matching Exit pops once asserting the same type, and for every handler that asserts the type of the stack top, every possible nearest pushing ancestor in the generated parser's rule call graph (all rule-invocation chains, which is also the nesting of error-recovered trees) pushes a type that implements the asserted interface / is the asserted type, and the stack cannot be empty there; (K5) every handler that touches the stack or the container does so only after the guard `len(ParseErrors) > 0 -> return`, so after the first recorded error the stack is never touched again. (K9) on the way from an entry point to a pipeline the rule text is handed on from parameter to parameter, never a value computed from it, so that every entry point compiles the very string it received. (K8) no handler of the listener package cuts a string or slice by position unless dominating length tests cover the bounds (contexts of truncated texts have empty text). Not decided: that the ANTLR lexer/parser never panic on arbitrary bytes and that token accessors (ctx.SIMPLENAME() etc.) are non-nil on error-recovered contexts. (K10) in every function that carries the text towards a pipeline no return with a possibly nil error avoids the call that carries it on: a text is accepted only after it has been compiled. (K11) after the lexer has been created a pipeline returns an error only under a test of a length or of an error for nil: the pipelines reject on the same grounds.",
+		Explanation: "Decides the structural conditions behind 'total, all-or-nothing, identical across entry points': (K1, sibling cross-check) each of the three functions that create a lexer (BuildRuleFromString, BuildRuleWithIncremental, getKc) feeds the whole text to one input stream, attaches a fresh GengineErrorListener to the lexer and another to the parser, walks psr.Primary() with a GengineParserListener over a fresh KnowledgeContext, and every return with a nil error is dominated by the three tests len(lexerErrors)>0, len(parserErrors)>0, len(listener.ParseErrors)>0, each of whose true edges returns a new error; the five public entry points reach exactly these pipelines (call graph); (K2) no store to installed state can be followed by an error return in any entry point or helper; (K3) the listener stores a rule under its name only on the miss edge of a lookup of the same name in the same map, the hit edge records an error; (K4) holder completeness: every Enter handler that pushes pushes one *base.T, the matching Exit pops once asserting the same type, and for every handler that asserts the type of the stack top, every possible nearest pushing ancestor in the generated parser's rule call graph (all rule-invocation chains, which is also the nesting of error-recovered trees) pushes a type that implements the asserted interface / is the asserted type, and the stack cannot be empty there; (K5) every handler that touches the stack or the container does so only after the guard `len(ParseErrors) > 0 -> return`, so after the first recorded error the stack is never touched again. (K9) on the way from an entry point to a pipeline the rule text is handed on from parameter to parameter, never a value computed from it, so that every entry point compiles the very string it received. (K8) no handler of the listener package cuts a string or slice by position unless dominating length tests cover the bounds (contexts of truncated texts have empty text). Not decided: that the ANTLR lexer/parser never panic on arbitrary bytes and that token accessors (ctx.SIMPLENAME() etc.) are non-nil on error-recovered contexts. (K10) in every function that carries the text towards a pipeline no return with a possibly nil error avoids the call that carries it on: a text is accepted only after it has been compiled. (K11) after the lexer has been created a pipeline returns an error only under a test of a length or of an error for nil: the pipelines reject on the same grounds. (K12) the merge inserts where tool.BinarySearch says: a hit returns the probe, a miss the insertion point and 0.",
 		Assumptions: []string{"ANTLR builds a parse tree nested by rule invocation and calls Enter/Exit in matching pairs", "the antlr runtime itself is total"},
 		Trusted:     commonTrusted,
 	})
